@@ -253,9 +253,9 @@ func (mon) Plan(prop, tier string, seed int64) []drv.Shard {
 		fsLen, fsAbsParts, fsAbsRand, fsAbsRandPart int
 		fsRelParts, fsRelRand                       int
 	}
-	c := cfg{lexLen: 6, lexParts: 4, lexRand: 40000, lexRandParts: 4, fsLen: 6, fsAbsParts: 2, fsAbsRand: 10000, fsAbsRandPart: 2, fsRelParts: 1, fsRelRand: 6000}
+	c := cfg{lexLen: 8, lexParts: 8, lexRand: 40000, lexRandParts: 4, fsLen: 7, fsAbsParts: 4, fsAbsRand: 10000, fsAbsRandPart: 2, fsRelParts: 1, fsRelRand: 6000}
 	if tier == "thorough" {
-		c = cfg{lexLen: 9, lexParts: 16, lexRand: 4000000, lexRandParts: 16, fsLen: 8, fsAbsParts: 8, fsAbsRand: 400000, fsAbsRandPart: 8, fsRelParts: 2, fsRelRand: 200000}
+		c = cfg{lexLen: 10, lexParts: 16, lexRand: 4000000, lexRandParts: 16, fsLen: 9, fsAbsParts: 12, fsAbsRand: 400000, fsAbsRandPart: 8, fsRelParts: 2, fsRelRand: 200000}
 	}
 	var out []drv.Shard
 	add := func(name string, solo bool, a shardArgs) {
@@ -299,7 +299,8 @@ func forEachPath(maxLen, part, parts int, f func(idx int, p []byte) bool) {
 		buf := make([]byte, l)
 		for v := 0; v < n; v++ {
 			idx++
-			if idx%parts != part {
+			// multiplicative mixing: idx%parts alone would tie a part to the last characters
+			if int((uint32(idx)*2654435761)>>12)%parts != part {
 				continue
 			}
 			x := v
@@ -455,7 +456,7 @@ func (mn mon) Run(sh drv.Shard, c *drv.Ctx) {
 	rn := &runner{st: st}
 	defer func() { rn.env.close() }()
 	bad := 0
-	exec := func(cs Case, distinctByPathOnly bool) bool {
+	exec := func(cs Case) bool {
 		c.Progress(cs.Mode+" "+q(cs.Base)+" "+q(string(cs.Path)), false)
 		k, e, o, herr := rn.runCase(&cs)
 		if herr != nil {
@@ -476,7 +477,7 @@ func (mn mon) Run(sh drv.Shard, c *drv.Ctx) {
 			cp := cs
 			cp.PathQ = strconv.QuoteToASCII(string(cs.Path))
 			g, _ := resolve(cs.Base, string(cs.Path))
-			c.Sample(map[string]any{"mode": cs.Mode, "base": cs.Base, "path": cp.PathQ, "result": g})
+			c.Sample(map[string]any{"mode": cs.Mode, "base": cs.Base, "path": cp.PathQ, "result": strconv.QuoteToASCII(g)})
 		}
 	}
 	fsb := fsAbsBases
@@ -493,14 +494,13 @@ func (mn mon) Run(sh drv.Shard, c *drv.Ctx) {
 			}
 			for _, b := range lexBases {
 				cs := Case{Mode: "lex", Base: b, Path: p}
-				sampleEvery(cs, climbs > 1 && len(p) == a.MaxLen && idx%977 < 16 && b == "../up")
-				if !exec(cs, true) {
+				sampleEvery(cs, a.Part < 2 && c.NumSamples() < 1 && climbs > 1 && len(p) == a.MaxLen && b == "../up")
+				if !exec(cs) {
 					return false
 				}
 			}
 			return true
 		})
-		st.add("lex_exhaustive_paths_max_len", 0)
 		c.MaxOf("exhaustive_len_lexical", int64(a.MaxLen))
 	case "lex-rand":
 		r := rand.New(rand.NewSource(sh.Seed*1000003 + int64(a.Part)))
@@ -512,7 +512,7 @@ func (mn mon) Run(sh drv.Shard, c *drv.Ctx) {
 			}
 			sampleEvery(cs, i < 2)
 			c.MaxOf("random_path_len", int64(len(cs.Path)))
-			if !exec(cs, false) {
+			if !exec(cs) {
 				break
 			}
 		}
@@ -525,7 +525,7 @@ func (mn mon) Run(sh drv.Shard, c *drv.Ctx) {
 					c.DistinctStr("fs\x00" + b.Base + "\x00" + string(p))
 				}
 				st.add(fsKey, 1)
-				if !exec(cs, false) {
+				if !exec(cs) {
 					return false
 				}
 			}
@@ -547,7 +547,7 @@ func (mn mon) Run(sh drv.Shard, c *drv.Ctx) {
 			if i < 1 {
 				c.Sample(map[string]any{"mode": "fs", "base": cs.Base, "chdir": cs.Chdir, "path": strconv.QuoteToASCII(string(cs.Path))})
 			}
-			if !exec(cs, false) {
+			if !exec(cs) {
 				break
 			}
 		}
@@ -566,6 +566,11 @@ func (mn mon) Replay(v drv.Violation, c *drv.Ctx) {
 	var cs Case
 	if err := json.Unmarshal(v.Case, &cs); err != nil {
 		c.Inconclusive("replay: cannot decode case: " + err.Error())
+		return
+	}
+	if cs.Mode != "lex" && cs.Mode != "fs" {
+		c.Inconclusive("replay: not a (base, path) case (crash records are replayed by re-running the check)")
+		fmt.Fprintln(os.Stderr, "replay: the recorded case is not a (base, path) case")
 		return
 	}
 	rn := &runner{st: &stats{m: map[string]int64{}}}
